@@ -42,6 +42,62 @@ func m15Copy(a *Attributes) *Attributes {
 	return &c
 }
 
+// m15Merge: what encoding/json does with an object text and a destination
+// struct: a key that occurs sets its field, a key that does not occur leaves
+// the field as it was; a pointer field is allocated only when nil, a map field
+// only when nil.  omit: the text was produced by the encoder (omitempty keys
+// do not occur when zero); otherwise a zero string / zero number / false /
+// nil in src stands for "this key does not occur".
+func m15Merge(dst, src *Attributes, fromEncoder bool) {
+	if fromEncoder || src.IfVer != 0 {
+		dst.IfVer = src.IfVer
+	}
+	if fromEncoder || src.Username != "" {
+		dst.Username = src.Username
+	}
+	if fromEncoder || src.Hostname != "" {
+		dst.Hostname = src.Hostname
+	}
+	if fromEncoder || src.SSHClientVersion != "" {
+		dst.SSHClientVersion = src.SSHClientVersion
+	}
+	if src.CAPubKeyAlgo != 0 {
+		dst.CAPubKeyAlgo = src.CAPubKeyAlgo
+	}
+	if src.SignatureAlgo != 0 {
+		dst.SignatureAlgo = src.SignatureAlgo
+	}
+	if fromEncoder || src.HardKey {
+		dst.HardKey = src.HardKey
+	}
+	if src.Touch2SSH {
+		dst.Touch2SSH = true
+	}
+	if src.TouchlessSudo != nil {
+		if dst.TouchlessSudo == nil {
+			dst.TouchlessSudo = &TouchlessSudo{}
+		}
+		t := src.TouchlessSudo
+		if t.IsFirefighter {
+			dst.TouchlessSudo.IsFirefighter = true
+		}
+		if t.Hosts != "" {
+			dst.TouchlessSudo.Hosts = t.Hosts
+		}
+		if t.Time != 0 {
+			dst.TouchlessSudo.Time = t.Time
+		}
+	}
+	if src.Exts != nil {
+		if dst.Exts == nil {
+			dst.Exts = map[string]interface{}{}
+		}
+		for k, v := range src.Exts {
+			dst.Exts[k] = v
+		}
+	}
+}
+
 func m15Marshal(v any) ([]byte, error) {
 	// encoding hooks of the value's type are honoured as encoding/json does
 	if m, ok := v.(json.Marshaler); ok {
@@ -84,7 +140,7 @@ func m15Unmarshal(data []byte, v any) error {
 		panic("m15Unmarshal: unexpected destination type")
 	}
 	if string(data) == m15Marker && m15Snap != nil {
-		*p = *m15Copy(m15Snap)
+		m15Merge(p, m15Copy(m15Snap), true)
 		return nil
 	}
 	if len(data) == 0 || !m15StartsJSON(data[0]) {
@@ -97,7 +153,7 @@ func m15Unmarshal(data []byte, v any) error {
 		}
 		return nil // decoded into a struct, null is a no-op
 	case 2:
-		*p = *m15Copy(m15Obj)
+		m15Merge(p, m15Copy(m15Obj), false)
 		return nil
 	}
 	return errors.New("model: invalid JSON")
@@ -370,5 +426,14 @@ func H15_json() {
 	if cerr == nil && c != nil {
 		// the object was not reinterpreted as legacy text
 		vAssert(c.IfVer == obj.IfVer && vEqString(c.Username, obj.Username) && vEqString(c.Hostname, obj.Hostname), "C15.json-object-never-reinterpreted-as-legacy")
+		// this text states nothing else: nothing of an earlier message of
+		// this process (the one decoded above) may show in the result
+		vAssert(!c.HardKey && !c.Touch2SSH && c.CAPubKeyAlgo == 0 && c.SignatureAlgo == 0, "C15.decoded-message-states-only-its-own-text")
+		if c.TouchlessSudo != nil {
+			vAssert(!c.TouchlessSudo.IsFirefighter && c.TouchlessSudo.Hosts == "" && c.TouchlessSudo.Time == 0, "C15.decoded-message-states-only-its-own-text")
+		}
+		if !vIsNative() {
+			vAssert(len(c.Exts) == 0, "C15.decoded-message-states-only-its-own-text")
+		}
 	}
 }
